@@ -926,6 +926,12 @@ class Engine:
 
     def opaque_call(self, st, name, av, thisv, loc, e):
         short = name.split("::")[-1] if name else "?"
+        if name and name.startswith("std::array<") and short in ("operator[]", "at") and len(av) == 1 and thisv is not None:
+            # element access of a std::array object: model natively as an element lvalue
+            idxv = self.load(st, av[0]) if (isinstance(av[0], tuple) and av[0] and av[0][0] in ("var", "tmp") and av[0] in st.mem) else av[0]
+            r = ("idx", self.deref(thisv), idxv)
+            self.emit(st, "CALL", name, list(av), thisv, loc=loc, extra={"ret": r, "fnid": (e.get("fn") or {}).get("id"), "rt": e.get("t"), "argvals": [idxv], "native": True})
+            return [(st, r)]
         pure = any(short.startswith(p) for p in PURE_PREFIXES) or name in ("std::numeric_limits::max", "std::numeric_limits::min")
         if pure:
             r = ("call", name, tuple(av), thisv)
